@@ -28,6 +28,7 @@ def instances(tier):
     # lines of more than 16 bytes, at every console verbosity (what is printed must not change what is written)
     for v in (0, 1, 2, 3):
         yield f'long-verbosity{v}', dict({'addr_bits': 16, 'origin': 0, 'page_size': 4}, max_len=3 if tier == 'quick' else 4, win_start=2, win_end=None if v % 2 else 70, fill=170, verbose=v), 'AlphaC03long', None
+    yield 'mute-conditional', dict({'addr_bits': 16, 'origin': 0, 'page_size': 4}, max_len=5 if tier == 'quick' else 6, win_start=0, win_end=7, fill=234), 'AlphaC03cond', None
     # muting that has to carry across two levels of #include, seen through a window with a non-zero fill
     yield 'mute-includes', dict({'addr_bits': 16, 'origin': 0, 'page_size': 4}, max_len=6 if tier == 'quick' else 7, win_start=0, win_end=6, fill=234, emit_inv='EmitInc'), 'AlphaC17mute', None
     if tier == 'quick':
